@@ -112,6 +112,7 @@ def run(ctx):
             linked = A.linked_outcomes(pkg, d if named else None)      # also creates the files that exist
             # expected external accesses, from the property text: one per linked image the converter opens, in order
             exp = []
+            note_refs = []
             reached = []      # targets of the link-only blips the conversion reaches (not those in deletions, field codes, unused alternates)
             rels = {a: b for a, b, c in pkg.rels}
             from mammoth.docx.xmlparser import XmlElement
@@ -127,6 +128,8 @@ def run(ctx):
                                     exp.append(("urllib.Request", t))
                                 elif named:
                                     exp.append(("open", os.path.realpath(os.path.join(d, t))))
+                        elif x.name in ("w:footnoteReference", "w:endnoteReference"):
+                            note_refs.append((x.name[2:-9], x.attributes.get("w:id")))
                         elif x.name in ("w:del", "w:instrText"):
                             continue
                         elif x.name == "mc:AlternateContent":
@@ -138,9 +141,13 @@ def run(ctx):
                             continue
                         walk(x.children)
             walk(pkg.body)
-            for part in (pkg.footnotes, pkg.endnotes):
-                # notes are converted only when referenced: every generated note is
-                walk([nn for nn in (part or []) if nn.attributes.get("w:type") is None])
+            # the notes are converted after the body, one per note reference the body reached, in REFERENCE order
+            body_refs = list(note_refs)
+            for ty, nid in body_refs:
+                part = pkg.footnotes if ty == "footnote" else pkg.endnotes
+                for nn in (part or []):
+                    if nn.attributes.get("w:type") is None and nn.attributes.get("w:id") == nid:
+                        walk(nn.children)
             if exp:
                 dist["with_linked"] += 1
             fobj = open(path, "rb") if named else io.BytesIO(data)
